@@ -629,6 +629,43 @@ theorem disabled_ignored (d : String → α) (ps : List (Param α)) :
     sequentialRuns d (ps.filter (·.enabled)) = sequentialRuns d ps :=
   ⟨disabled_ignored_product (by simp), disabled_ignored_sequential d (by simp)⟩
 
+/-- **disabled parameters are ignored by the validation too**: whatever a disabled parameter points at (a missing key,
+an argument of a switched-off model, placeholders), the verdict is that of the enabled parameters alone. -/
+theorem validate_ignores_disabled (custom : Bool) (fs : List StepFacts) :
+    validateSteps custom fs = validateSteps custom (fs.filter (·.enabled)) := by
+  induction fs with
+  | nil => rfl
+  | cons f fs ih =>
+    by_cases he : f.enabled = true
+    · simp only [validateSteps, List.filter_cons, he, Bool.not_true, if_true]
+      simp only [Bool.false_eq_true, if_false, ih]
+    · have he' : f.enabled = false := by simpa using he
+      simp only [validateSteps, List.filter_cons, he', Bool.not_false, if_true, Bool.false_eq_true, if_false, ih]
+
+/-- a declaration whose enabled parameters are all sound is accepted, whatever the disabled ones are -/
+theorem validate_ok_of_enabled_sound (custom : Bool) (fs : List StepFacts)
+    (h : ∀ f ∈ fs, f.enabled = true → f.hasKey = true ∧ f.modelOn = true ∧ (f.placeholder = true → custom = true)) :
+    validateSteps custom fs = .ok () := by
+  induction fs with
+  | nil => rfl
+  | cons f fs ih =>
+    have ih' := ih (fun g hg => h g (List.mem_cons_of_mem _ hg))
+    by_cases he : f.enabled = true
+    · obtain ⟨h1, h2, h3⟩ := h f (by simp) he
+      simp only [validateSteps, he, h1, h2, Bool.not_true, Bool.false_eq_true, if_false]
+      by_cases hp : f.placeholder = true
+      · have hc := h3 hp
+        subst hc
+        simp [hp, ih']
+      · have hp' : f.placeholder = false := by simpa using hp
+        simp [hp', ih']
+    · have he' : f.enabled = false := by simpa using he
+      simp only [validateSteps, he', Bool.not_false, if_true, ih']
+
+-- non-vacuity: a disabled parameter on a switched-off model and one with a missing key are ignored; an enabled one is not
+example : validateSteps false [⟨false, true, false, false⟩, ⟨true, true, true, false⟩, ⟨false, false, true, true⟩] = .ok () ∧
+    validateSteps false [⟨true, true, false, false⟩] = .error .modelNotEnabled := by decide
+
 /-- a product run assigns only keys of *enabled* parameters, with values from their own lists -/
 theorem product_assigns_enabled_only {ps : List (Param α)} {r : Run α} (hr : r ∈ productRuns ps)
     {kv : String × α} (hkv : kv ∈ r.params) :
